@@ -75,6 +75,11 @@ def run(tier, seed, replay=None):
     ck.assumptions = ["Print Assumptions: " + (", ".join(pr["assumptions"]) or "Closed under the global context")]
     ck.extra["trusted_base"] = TRUSTED_BASE + tg.TRUSTED_BASE_TEXT
     tg.build_modelrun_text()
+    try:
+        from . import jsn as _jsn
+        _jsn.build_modelrun_json()
+    except Exception:
+        pass
     build_harness("debug")
     profiles = ["debug"]
     if tier == "thorough":
@@ -147,6 +152,39 @@ def run(tier, seed, replay=None):
             for m in tg.json_struct_mutants(s, rng, dict(quick=25, thorough=200)[tier]):
                 json_cases.append((ty, m))
                 dist["json_struct_mutants"] = dist.get("json_struct_mutants", 0) + 1
+        # every integer of a few valid JSON encodings replaced by every value of a fixed boundary list (systematic, not sampled:
+        # `"version": 0` must not depend on the luck of a random mutant)
+        try:
+            from . import jsn as _j
+            NUMS = [0, 1, 2, -1, (1 << 31), (1 << 32) - 1, 1 << 32, (1 << 32) + 1, (1 << 63), (1 << 64) - 1, 1 << 64]
+            seen_ty = {}
+            for ty, s in jvalid:
+                if seen_ty.get(ty, 0) >= 2 or len(s) > 3000:
+                    continue
+                seen_ty[ty] = seen_ty.get(ty, 0) + 1
+                ast = _j.parse_text(s)
+                for pth in _j.paths(ast):
+                    v = _j.get(ast, pth)
+                    if isinstance(v, int) and not isinstance(v, bool):
+                        for nv in NUMS:
+                            if nv != v:
+                                json_cases.append((ty, _j.dump(_j.put(ast, pth, nv))))
+                                dist["json_number_grid"] = dist.get("json_number_grid", 0) + 1
+        except Exception as e:
+            dist["json_number_grid"] = "unavailable: %s" % e
+        # snapshot packages that are SEALED (checksum recomputed) but altered or self-inconsistent: only these get past the
+        # checksum and reach the code behind it
+        try:
+            from . import c09, jsn
+            jm = jsn.Model()
+            for ty, s in [c for c in jvalid if c[0] == "snappkg"][:8]:
+                for kk, t in c09.package_mutants(rng, jsn.parse_text(s), jm, 60):
+                    if kk.startswith("rehash"):
+                        json_cases.append(("snappkg", t))
+                        dist["sealed_package_mutants"] = dist.get("sealed_package_mutants", 0) + 1
+            jm.close()
+        except Exception as e:      # the JSON model is C09/C17's; C18 only borrows its mutant generator
+            dist["sealed_package_mutants"] = "unavailable: %s" % e
         sweeps = SWEEPS_QUICK if tier == "quick" else SWEEPS_ALL
         # deep nesting (implementation only, judged only): thousands to a million unbalanced openers after every
         # structural opener of a valid encoding - a recursive scanner overflows the stack (abort, not a panic)
